@@ -296,6 +296,8 @@ def check(ctx):
     check_swap(ctx)
     check_permutation(ctx)
     check_factories(ctx)
+    ctx.rule("R10.5", "the swap of tensors permutes the axes as requested (C08 R08.4): the tensor-level instance of this property")
+    ctx.depend("R10.5", "C08", "Tensor.swap(left, right) moves the axes of `left` past those of `right`", rules={"R08.4"}, mod="discopy.tensor")
     ctx.floor("R10.1", 2)
     ctx.floor("R10.2", 8)
     ctx.floor("R10.3", 6)
